@@ -680,6 +680,7 @@ func c17(x *runCtx) {
 	}
 	c17RunAll(x, g.cases)
 	c17Sequences(x)
+	c17WgetDropped(x)
 	c17Probe(x)
 	x.r.Note("model: lean/Fdo/Svc/Fsim.lean, upload as Variant.repaired (after the two fix: commits to fsim/upload_owner.go and " +
 		"fsim/upload_device.go); on the tree as found upload disagrees for an over-announced length (stall), an empty file (stall), a " +
